@@ -503,11 +503,13 @@ func (m *Model) apply(o Op, hint *Res) Res {
 			return Res{Err: "NoSuchBucket"}
 		}
 		for _, e := range o.Parts {
-			key, opt := e, map[string]string(nil)
+			key, vid, opt := e, "", map[string]string(nil)
 			if i := strings.Index(e, "?ifm="); i >= 0 {
 				key, opt = e[:i], map[string]string{"ifm": e[i+5:]}
+			} else if i := strings.Index(e, "?v="); i >= 0 {
+				key, vid = e[:i], e[i+3:] // version-addressed entry (model label of the version)
 			}
-			m.apply(Op{Kind: "Delete", B: o.B, K: key, Opt: opt}, nil)
+			m.apply(Op{Kind: "Delete", B: o.B, K: key, V: vid, Opt: opt}, nil)
 		}
 		return Res{}
 	case "Copy":
